@@ -603,6 +603,8 @@ fn sort_block_no_recognizer() {
 /// another production with lookahead {t1}, and an item that is not reducing.  Every reducing item must be processed: ACCEPT
 /// on STOP, Reduce(X, 1) on t1, nothing for the third item, nothing on other terminals.  bounded: one concrete state
 /// (the per-item placement for every follow set is proved in Verus: conflicts::reduce_block).
+/// NOT REGISTERED: measured -- timed out at 1200 s although every input is concrete (Grammar/LRTable construction and the
+/// filter/contains adapter chains).  Seed C01d stays missed.  Kept for the record.
 #[kani::proof]
 #[kani::unwind(8)]
 fn calculate_reductions_all_items() {
